@@ -284,3 +284,62 @@ func VerifC08GenRequestID() {
 	vapi.Check(vapi.And(ids[0] != ids[1], vapi.And(ids[0] != ids[2], ids[1] != ids[2])), "concurrently generated ids are pairwise distinct")
 	vapi.Reach("c08-genrequestid")
 }
+
+// ---- a rejected call next to calls in flight ----
+type c08RejMgr struct{ adp *AdapterProxy }
+
+func (m *c08RejMgr) SelectAdapterProxy(msg *Message) (*AdapterProxy, bool) {
+	if msg.Req.SFuncName == "reject" {
+		if !vapi.Engine() {
+			// native replay: hold the rejected call between drawing its id and failing, so that
+			// the other caller draws its id in between (the engine explores this by scheduling)
+			time.Sleep(20 * time.Millisecond)
+		}
+		return nil, false // "no adapter Proxy selected": the call fails before anything is sent
+	}
+	return m.adp, false
+}
+func (m *c08RejMgr) GetAllEndpoint() []*endpoint.Endpoint { return nil }
+func (m *c08RejMgr) preInvoke()                            {}
+func (m *c08RejMgr) postInvoke()                           {}
+func (m *c08RejMgr) addAliveEp(ep endpoint.Endpoint)       {}
+
+// VerifC08RejectedCall: through TarsInvoke itself (which draws the ids): call A is in flight, a
+// call that is rejected before it is sent runs concurrently with it, then call C is made while A
+// is still outstanding. A and C must be on the wire with different ids and each gets its own reply.
+func VerifC08RejectedCall() {
+	msgID = 6
+	s, adp := c08Setup(50)
+	s.manager = &c08RejMgr{adp}
+	var aResp, cResp, rResp requestf.ResponsePacket
+	var aErr, cErr error
+	var aDone int32
+	go func() {
+		if !vapi.Engine() {
+			time.Sleep(5 * time.Millisecond) // (see c08RejMgr)
+		}
+		aErr = s.TarsInvoke(current.ContextWithClientCurrent(context.Background()), 0, "a", nil, nil, nil, &aResp)
+		atomic.StoreInt32(&aDone, 1)
+	}()
+	rErr := s.TarsInvoke(current.ContextWithClientCurrent(context.Background()), 0, "reject", nil, nil, nil, &rResp)
+	vapi.Check(rErr != nil, "a call for which no adapter is selected fails")
+	idA := <-c08Wire // A is on the wire (and unanswered) from here on
+	go func() {
+		idC := <-c08Wire
+		vapi.Check(idC != idA, "concurrently outstanding calls never share an id")
+		go adp.Recv(c08Reply(idA, 'A'))
+		go adp.Recv(c08Reply(idC, 'C'))
+	}()
+	cErr = s.TarsInvoke(current.ContextWithClientCurrent(context.Background()), 0, "c", nil, nil, nil, &cResp)
+	for atomic.LoadInt32(&aDone) == 0 {
+		time.Sleep(10 * time.Millisecond)
+	}
+	vapi.Quiesce()
+	vapi.Check(aErr == nil && cErr == nil, "both accepted calls are answered")
+	if aErr == nil && cErr == nil {
+		vapi.Check(len(aResp.SBuffer) == 1 && aResp.SBuffer[0] == 'A', "the first caller receives the payload addressed to its id")
+		vapi.Check(len(cResp.SBuffer) == 1 && cResp.SBuffer[0] == 'C', "the later caller receives the payload addressed to its id")
+	}
+	vapi.Check(atomic.LoadInt32(&s.queueLen) == 0, "in-flight counter is back to zero")
+	vapi.Reach("c08-rejected-call")
+}
